@@ -33,3 +33,9 @@ package redirect
 //@   modifies ghost:nextCalls, ghost:nextRet, ghost:hw, ghost:bodyWrites
 //@   ensures [answers_itself_once_or_passes_on_once] (nextCalls == old(nextCalls) && result0 == 0 && result1 == nil && hw + bodyWrites == old(hw) + old(bodyWrites) + 1) || (nextCalls == old(nextCalls) + 1 && result0 == nextRet && hw == old(hw) && bodyWrites == old(bodyWrites))
 //@   loop 1 invariant nextCalls == old(nextCalls) && hw == old(hw) && bodyWrites == old(bodyWrites)
+
+//@ unit pure_helpers frames=on props=C12 verify_pure=on filter=`redirect\.schemeMatches$`
+//@ // what redirect_handler assumes of schemeMatches, proved: it writes nothing
+//@ func schemeMatches
+//@   pure
+//@   requires req != nil
